@@ -5,20 +5,39 @@ import Bardolph.Proofs.VmSteps
 # C16 — compilation depends only on the token sequence; every documented name is usable
 
 Theorems about the lexer model `Bardolph.Lex` (`Model/Lex.lean`, a hand-written model of
-`bardolph/parser/lex.py`) and two peephole lemmas about the VM model.
+`bardolph/parser/lex.py`; helper lemmas in `Proofs/LexLemmas.lean`) and two peephole lemmas
+about the VM model.  Statements are about one line as a `List Char`: `splitLine` is
+`re.finditer` over the line, `lineTokens` turns the matches into tokens.  Every fuel that is
+at least the length of the text gives the same result (`splitLine_fuel`); `Lex.tokens` uses
+`length + 1`.
 
-* `C16_regex_sources_agree` pins the regular-expression SOURCE strings, the order of the
-  alternation, the classification order, the abbreviation table, the punctuation list and
-  `_NOT_KEYWORDS` — all regenerated from the Python source on every run — to the literals the
-  hand-written scanners implement.  Changing a regular expression in `lex.py` breaks it.
-* `C16_identifier_free`, `C16_case_sensitive`: every word of the documented name form that is
-  not a documented keyword, register word or abbreviation is ONE `NAME` token carrying itself.
-* `C16_string_free`: a quoted string without `"` and `\` is ONE `LITERAL_STRING` token
-  carrying exactly its content, whatever follows.
-* `C16_whitespace_insensitive`: the matches of `a ++ ws ++ b` are those of `a` followed by
-  those of `b` for every non-empty white space `ws` (`a` free of double quotes).
-* `C16_comment_cut`, `C16_abbrev_same`, and the VM lemmas `C16_peephole_pushq_pop`,
-  `C16_peephole_push_pop`.
+1. `C16_regex_sources_agree` pins the regular-expression SOURCE strings, the order of the
+   alternation, the classification order, the abbreviation table, the punctuation list and
+   `_NOT_KEYWORDS` — all regenerated from the Python source on every run — to the literals the
+   hand-written scanners implement.  Changing a regular expression in `lex.py` breaks it.
+   `C16_keyword_table_shape`: keywords = lower-cased `TokenTypes` minus `_NOT_KEYWORDS`.
+2. `C16_identifier_free` (+ `_string`), `C16_case_sensitive`, `C16_case_sensitive_name`,
+   `C16_class_names_free`: every word of the documented name form that is not a generated
+   keyword, register word or abbreviation is ONE `NAME` token carrying itself; a word with an
+   upper-case letter never gets a keyword type; `number`, `eof`, `mark`, … are names.
+3. `C16_string_free_general`, `C16_string_free`, `C16_string_backslash_last`,
+   `C16_hash_in_string`: a quoted string whose content has no `"` and does not end in `\` is
+   ONE `LITERAL_STRING` token carrying exactly its content, whatever follows; content ending
+   in `\` too if no other `"` follows on the line (known finding C16-F1 otherwise).
+4. `C16_whitespace_insensitive`, `C16_whitespace_kind`, `C16_leading_whitespace`,
+   `C16_trailing_whitespace`, `C16_tokens_never_join`, `C16_linebreak_as_blank`;
+   `C16_punct_own_token`, `C16_word_then_any`, `C16_digits_then_any` (no white space needed
+   round operators, braces, brackets); `C16_layout_invariant`, `C16_relayout` (a line of
+   quote-free pieces and string literals separated by arbitrary non-empty white space has the
+   matches of its pieces, whatever the separators).
+5. `C16_comment_cut`, `C16_no_comment_no_cut`, `C16_comment_after_ws`, `C16_comment_line`.
+6. `C16_abbrev_same`, `C16_abbrev_same_in_line`.
+7. `C16_peephole_pushq_pop`, `C16_peephole_push_pop`, `C16_push_none_faults` (VM).
+
+Not covered here (correspondence/tests only): the `String`-level `Lex.tokens` (splitting the
+text at `\n`), the parser's optional brackets/braces, and white space other than the six
+ASCII characters of `isWs` (Python's `\s` also takes `\x1c`–`\x1f`, `\x85`, `\xa0`, …: the
+model lexes `"@\x1c@"` as one ERROR token, Python as two).
 -/
 namespace Bardolph.Lex
 open Bardolph.Generated
@@ -404,6 +423,63 @@ theorem C16_linebreak_as_blank (n : Nat) (l₁ l₂ : List Char) (h₁ : '"' ∉
     (by decide) (Nat.le_succ _) (Nat.le_succ _) (Nat.le_succ _) hc]
   simp only [List.map_append]
   rw [lineTokens_line n (n + 1) (splitLine (l₂.length + 1) l₂)]
+
+/-! ## 4b. Operators, braces and brackets need no surrounding white space -/
+
+/-- Each of `[ ] { } ( ) + - / % : ^` is a match — and a `MARK` token — of its own wherever it
+stands and whatever follows it directly (`*` too unless a time pattern such as `*:30` starts
+there; `#` cuts the line: `C16_comment_cut`). -/
+theorem C16_punct_own_token (n f : Nat) (p : Char) (rest : List Char) (hp : p ∈ soloPunct)
+    (hne : p ≠ '#') :
+    splitLine (f + 1) (p :: rest) = [p] :: splitLine f rest ∧
+    lineTokens n (splitLine (f + 1) (p :: rest))
+      = ⟨"MARK", String.ofList [p], n⟩ :: lineTokens n (splitLine f rest) := by
+  refine ⟨splitLine_soloPunct f p rest hp, ?_⟩
+  rw [splitLine_soloPunct f p rest hp]
+  have key : ∀ q ∈ soloPunct, q ≠ '#' →
+      unabbreviate (String.ofList [q]) = String.ofList [q] ∧
+      (String.ofList [q] == "#") = false ∧
+      ((String.ofList [q]).length == 1 &&
+        LexTables.nonAlnumList.toList.contains ((String.ofList [q]).toList.headD ' ')) = true := by
+    decide +kernel
+  obtain ⟨k1, k2, k3⟩ := key p hp hne
+  rw [lineTokens]
+  simp only [k1, k2, k3, Bool.false_eq_true, if_false, if_true]
+
+/-- A word of the name form (a name or a keyword) ends exactly where its name characters end:
+whatever non-name character follows directly — an operator, a bracket, a brace, a quote —
+starts the next match. -/
+theorem C16_word_then_any (f : Nat) (c p : Char) (cs rest : List Char)
+    (hc : isNameStart c = true) (hcs : cs.all isNameChar = true) (hp : isNameChar p = false) :
+    splitLine (f + 1) (c :: cs ++ p :: rest) = (c :: cs) :: splitLine f (p :: rest) :=
+  splitLine_name_then f rest hc hcs hp
+
+/-- A run of digits is a match of its own in front of any character that is not a digit, `.`
+or `:` (and, for `*`, is not followed by `:` — `5*:30` is a time pattern). -/
+theorem C16_digits_then_any (f : Nat) (ds : List Char) (p : Char) (rest : List Char)
+    (hne : ds ≠ []) (hds : ds.all isDigit = true) (hp : endsNumber p rest) :
+    splitLine (f + 1) (ds ++ p :: rest) = ds :: splitLine f (p :: rest) :=
+  splitLine_digits_then f ds p rest hne hds hp
+
+/-- `{5%3}` by the three theorems: `{` alone, `5` ends at `%`, `%` alone, `3` ends at `}`, `}`
+alone (the expression that failed to compile on the pinned tree) -/
+example (f : Nat) : splitLine (f + 5) "{5%3}".toList = [['{'], ['5'], ['%'], ['3'], ['}']] := by
+  show splitLine (f + 4 + 1) ('{' :: "5%3}".toList) = _
+  rw [(C16_punct_own_token 0 (f + 4) '{' _ (by decide) (by decide)).1]
+  show ['{'] :: splitLine (f + 3 + 1) (['5'] ++ '%' :: "3}".toList) = _
+  rw [C16_digits_then_any (f + 3) ['5'] '%' _ (by decide) (by decide)
+    ⟨by decide, by decide, by decide, by decide⟩]
+  show ['{'] :: ['5'] :: splitLine (f + 2 + 1) ('%' :: "3}".toList) = _
+  rw [(C16_punct_own_token 0 (f + 2) '%' _ (by decide) (by decide)).1]
+  show ['{'] :: ['5'] :: ['%'] :: splitLine (f + 1 + 1) (['3'] ++ '}' :: []) = _
+  rw [C16_digits_then_any (f + 1) ['3'] '}' _ (by decide) (by decide)
+    ⟨by decide, by decide, by decide, by decide⟩]
+  rw [(C16_punct_own_token 0 f '}' _ (by decide) (by decide)).1, splitLine_nil]
+example : lineTokens 1 (splitLine 99 "[f(x+1)]".toList)
+    = lineTokens 1 (splitLine 99 "[ f ( x + 1 ) ]".toList) := by decide +kernel
+/-- `*` is excluded from `soloPunct` for a reason: `*:30` is a time pattern, `* :30` is not -/
+example : splitLine 9 "*:30".toList = ["*:30".toList] ∧
+    splitLine 9 "2*3".toList = [['2'], ['*'], ['3']] := by decide +kernel
 
 /-! ### whole lines: pieces and separators -/
 
